@@ -20,7 +20,7 @@ RULE = ("qmail-pop3d: every message over {LF,'.',a,CR} up to length %s retrieved
         "The real main() of both programs (ASan+UBSan build of the working tree) is compared with the Lean model Nq.Pop3 on bytes written, exit code, "
         "bytes on descriptor 3 and the maildir afterwards; the oracle is the RFC 1939 reference Nq.Pop3Ref (client-side decoder popDecode, reference "
         "session, expected maildir) evaluated on the implementation's transcript for every numbering that is a mtime-sorted permutation of the "
-        "messages present at start-up; STAT's total is compared, STAT's message count is not; LAST must report the highest number marked since the last RSET. non-trivial = distinct session with at least two events and a reply "
+        "messages present at start-up (searched exactly and lazily over all tie permutations; a failing case with more than 8! such numberings is counted as oracle_skipped_ties, not reported); STAT's total is compared, STAT's message count is not; LAST must report the highest number marked since the last RSET. non-trivial = distinct session with at least two events and a reply "
         "beyond the greeting / distinct dialogue that reached the checker")
 
 TIERS = {"quick": dict(pop3d="3 40000", popup="3 1500", fmt=(6, 3, 40000, 3, 1500)),
